@@ -144,13 +144,13 @@ static Plan gen_table(const std::string &prop, const std::string &tier, uint64_t
 		p.seti("chk_roundtrip", prop == "C01");
 		p.seti("chk_format", prop == "C09");
 		p.seti("chk_stats", prop == "C10");
-		if (prop == "C01" && r.chance(1, thorough ? 5 : 20)) {
+		if (prop == "C01" && r.chance(1, thorough ? 5 : 8)) {
 			KeyGen kg(r);
 			std::string kp = r.chance(1, 2) ? "-" : "@k" + std::to_string(r.below(400)) + ":6";
-			std::string vp = r.chance(2, 3) ? "-" : "x76";
+			std::string vp = r.chance(1, 2) ? "-" : r.chance(1, 2) ? "x76" : "x7676";
 			p.op("dump", { kp, vp, std::to_string(r.chance(1, 2) ? 0 : r.below(12)), std::to_string(r.chance(1, 2) ? 0 : r.below(12)) });
 		}
-		if (prop == "C10" && r.chance(1, thorough ? 5 : 20)) p.op("info");
+		if (prop == "C10" && r.chance(1, thorough ? 5 : 10)) p.op("info");
 	} else if (prop == "C02") {
 		gen_writer_cfg(p, r, false, false, true);
 		if (r.chance(1, 10)) { p.seti("pool", r.below(3)); p.set("sched", sched_cfg_gen(r, 800)); }
@@ -204,6 +204,10 @@ static Plan gen_table(const std::string &prop, const std::string &tier, uint64_t
 		p.seti("ref_restart_pm", r.chance(1, 4) ? 1000 : r.chance(1, 3) ? 0 : r.below(1000));
 		p.seti("ref_share", r.below(3));
 		p.seti("ref_sep", r.below(4));
+		{	// the trailer's block-size field is informational: any value is legal in a foreign file
+			static const char *bsf[] = { "0", "1", "64", "128", "512", "1023", "1024", "4096", "8192", "1048576", "4294967296", "18446744073709551615" };
+			p.set("ref_bsfield", r.chance(1, 2) ? "-" : bsf[r.below(12)]);
+		}
 		gen_sorted_adds(p, r, draw_n(r), r.chance(1, 2) ? 0 : 60);
 		p.seti("chk_roundtrip", 1);
 		gen_queries(p, r, (int)r.below(20));
@@ -373,8 +377,30 @@ static RunResult exec_table(const Plan &p)
 		eo.foreign_prefix = pre; eo.max_block_entries = (int)p.geti("ref_maxblk", 8);
 		eo.restart_pm = (int)p.geti("ref_restart_pm", 300); eo.share_mode = (int)p.geti("ref_share", 0);
 		eo.sep_mode = (int)p.geti("ref_sep", 0); eo.block_size_field = bsize;
+		if (!p.gets("ref_bsfield", "").empty() && p.gets("ref_bsfield", "-") != "-") { eo.block_size_field = strtoull(p.gets("ref_bsfield").c_str(), nullptr, 10); res.probes["ref-unusual-block-size-field"]++; }
 		write_file(c.path, mfmt::encode(ents, eo));
 		res.probes[eo.version == 1 ? "ref-v1" : "ref-v2"]++;
+	}
+
+	// ---- C08: "a refused add changes nothing": the file must be byte-identical to the one a second writer
+	// produces from the accepted adds alone (same configuration, no pool)
+	if (prop == "C08" && !ref && !res.viol) {
+		std::vector<Op> accepted;
+		for (auto &kv : c.model) accepted.push_back(Op{ "add", { spec_of(kv.first), spec_of(kv.second) } });
+		if (accepted.size() != adds.size()) {
+			Plan q = p;
+			q.seti("pool", -1); q.set("wfrag", "none");
+			TableModel m2 = new_model(); RunResult r2;
+			std::string p2 = scratch_dir() + "/t.accepted-only.mtbl";
+			if (tablelib_write(q, r2, p2, m2, accepted, false, nullptr)) {
+				Bytes a = read_file(c.path), b = read_file(p2);
+				if (a != b) {
+					size_t i = 0; while (i < a.size() && i < b.size() && a[i] == b[i]) i++;
+					res.fail("MODEL", "REFUSAL-changed-file", "the file written with " + std::to_string(adds.size() - accepted.size()) + " refused adds differs from the file written from the accepted adds alone (" + std::to_string(a.size()) + " vs " + std::to_string(b.size()) + " bytes, first difference at offset " + std::to_string(i) + ")");
+				}
+				res.probes["compared-with-accepted-only-file"]++;
+			}
+		}
 	}
 
 	// ---- independent decode of the bytes on disk
